@@ -77,25 +77,37 @@ structure Ord where
   cmp : Str → Str → Int
   vmatch : Str → Str → Bool
 
-/-- the order properties the `latest` / expression theorems need (to be discharged by C10) -/
-structure GoodOrd (cmp : Str → Str → Int) : Prop where
-  refl : ∀ a, cmp a a ≤ 0
-  flip : ∀ a b, 0 ≤ cmp a b → cmp b a ≤ 0
-  trans : ∀ a b c, cmp a b ≤ 0 → cmp b c ≤ 0 → cmp a c ≤ 0
+/-- the order properties the `latest` / expression theorems need, on the names satisfying `P`
+(C10 proves them for the conventional names; `Lemmas/VroC10.lean`) -/
+structure GoodOrdOn (P : Str → Prop) (cmp : Str → Str → Int) : Prop where
+  refl : ∀ a, P a → cmp a a ≤ 0
+  flip : ∀ a b, P a → P b → 0 ≤ cmp a b → cmp b a ≤ 0
+  trans : ∀ a b c, P a → P b → P c → cmp a b ≤ 0 → cmp b c ≤ 0 → cmp a c ≤ 0
+
+/-- the same on all names -/
+abbrev GoodOrd (cmp : Str → Str → Int) : Prop := GoodOrdOn (fun _ => True) cmp
 
 /-! ## the view a lookup has (interface with C07 / D16)
 
-A stack whose cache a fresh process *accepted* is loaded for the native flavor only; a stack that was
-rebuilt in this process holds every flavor of the database.  Which of the two happened is decided by
-the load-versus-rebuild rule (C07's model); here it is an input, one `Bool` per stack. -/
+A stack whose cache a fresh process *accepted* is loaded for the flavors the process asked the cache
+for (`neededFlavors`); a stack that was rebuilt in this process holds every flavor of the database.
+Which of the two happened is decided by the load-versus-rebuild rule (C07's model); here it is an
+input, one `Bool` per stack.
 
-def restrictStack (native : Str) (st : Stack) : Stack :=
-  { decls := st.decls.filter (fun d => d.flavor == native),
-    tags := st.tags.filter (fun t => t.flavor == native) }
+Since fix 9143b09 `Eups.__init__` installs the configured fallback flavors before it reads the cache,
+so `loaded` = the native flavor and its fallbacks — exactly the flavors the flavor loop of `setup`
+visits.  Before it (`…Pinned` below, D16) the list was the native flavor alone. -/
 
-def cacheView (native : Str) : List Bool → Db → Db
-  | a :: as, st :: rest => (if a then restrictStack native st else st) :: cacheView native as rest
+def restrictStack (loaded : List Str) (st : Stack) : Stack :=
+  { decls := st.decls.filter (fun d => loaded.contains d.flavor),
+    tags := st.tags.filter (fun t => loaded.contains t.flavor) }
+
+def cacheView (loaded : List Str) : List Bool → Db → Db
+  | a :: as, st :: rest => (if a then restrictStack loaded st else st) :: cacheView loaded as rest
   | _, rest => rest
+
+/-- the pinned tree (before 9143b09): an accepted cache is read for the native flavor only -/
+def cacheViewPinned (native : Str) : List Bool → Db → Db := cacheView [native]
 
 /-- how an `Eups` instance reaches the database -/
 inductive Mode where
@@ -103,6 +115,9 @@ inductive Mode where
   | cache     -- `Eups()` and `noCache=False`: every lookup goes through the loaded cache
   | mixed     -- `Eups()` and `noCache=True`: the files, except `latest`, which still uses the cache
 deriving DecidableEq, Repr
+
+/-- every version name declared in the database satisfies `P` -/
+def DeclIn (P : Str → Prop) (db : Db) : Prop := ∀ st ∈ db, ∀ d ∈ st.decls, P d.version
 
 /-! ## per-stack lookups -/
 
@@ -272,12 +287,17 @@ structure Ctx where
 def Ctx.recognized (C : Ctx) (e : Str) : Bool :=
   C.globalTags.contains e || e == kLatest || pseudoTags.contains e
 
-/-- the two views of a lookup, from the full database, the mode and the per-stack load outcome -/
-def mkCtx (o : Ord) (globalTags : List Str) (full : Db) (m : Mode) (native : Str) (accepted : List Bool) : Ctx :=
+/-- the two views of a lookup, from the full database, the mode, the flavors the process reads from an
+accepted cache (native + fallbacks) and the per-stack load outcome -/
+def mkCtx (o : Ord) (globalTags : List Str) (full : Db) (m : Mode) (loaded : List Str) (accepted : List Bool) : Ctx :=
   match m with
   | .files => ⟨o, full, full, globalTags⟩
-  | .cache => ⟨o, cacheView native accepted full, cacheView native accepted full, globalTags⟩
-  | .mixed => ⟨o, full, cacheView native accepted full, globalTags⟩
+  | .cache => ⟨o, cacheView loaded accepted full, cacheView loaded accepted full, globalTags⟩
+  | .mixed => ⟨o, full, cacheView loaded accepted full, globalTags⟩
+
+/-- the same on the pinned tree (D16) -/
+def mkCtxPinned (o : Ord) (globalTags : List Str) (full : Db) (m : Mode) (native : Str) (accepted : List Bool) : Ctx :=
+  mkCtx o globalTags full m [native] accepted
 
 inductive Outcome where
   | skip                                   -- `continue`
